@@ -2,6 +2,7 @@
 # Offline setup: regenerate the tables from /repo's working tree and build the whole Lean library.
 here="$(cd "$(dirname "$0")" && pwd)"
 cd "$here" || exit 2
+CB_REPO="${CB_REPO:-/repo}"; export CB_REPO; PYTHONPATH="$CB_REPO/src"; export PYTHONPATH
 /venv/bin/python -c "
 from cbv import core
 ok, info = core.regenerate_tables()
